@@ -182,6 +182,7 @@ INVARIANT Laws
 INVARIANT Symmetric
 INVARIANT DisjointClean
 INVARIANT EmbeddedAllWF
+INVARIANT StrProvenanceModGlue
 CONSTRAINT Emit
 CHECK_DEADLOCK FALSE
 """
@@ -198,7 +199,7 @@ def merge_algo(chk, maxlen, emit, kind="lists", nins=3, npatch="all"):
     if r.invariant_violated or r.error:
         raise tlc.TLCError("MergeAlgo: %s\n%s" % (r.error, "\n".join(l for l in r.out.splitlines() if not l.startswith('"'))[-2500:]))
     chk.add_model(r, "MergeAlgo %s MaxLen=%d (%s)" % (kind, maxlen, "every pair of well-formed diffs of every base, NIns=%d NPatch=%s"
-                                                   % (nins, npatch) if kind == "nested" else "all triples over 3 atoms"))
+                                                   % (nins, npatch) if kind in ("nested", "strings") else "all triples over 3 atoms"))
     if not emit:
         return []
     from nbdime.merging.generic import decide_merge, decide_merge_with_diff
@@ -216,7 +217,7 @@ def merge_algo(chk, maxlen, emit, kind="lists", nins=3, npatch="all"):
         n += 1
         docs.setdefault(json.dumps([b, l, rr], sort_keys=True), (b, l, rr))
         try:
-            if kind == "nested":
+            if kind in ("nested", "strings"):
                 D = decide_merge_with_diff(b, l, rr, to_diffentry_dicts(dec_diff(lst(m["ld"]))),
                                            to_diffentry_dicts(dec_diff(lst(m["rd"]))))
             else:
@@ -225,7 +226,7 @@ def merge_algo(chk, maxlen, emit, kind="lists", nins=3, npatch="all"):
             got = [{"path": enc_path(d.common_path), "action": d.action, "conflict": d.conflict,
                     "local_diff": enc_diff(d.local_diff or []), "local_null": d.local_diff is None,
                     "remote_diff": enc_diff(d.remote_diff or [])} for d in D]
-            gm = enc(dict(mm) if kind == "objects" else list(mm))
+            gm = enc(dict(mm) if kind == "objects" else mm if kind == "strings" else list(mm))
         except Exception as e:  # noqa
             got, gm = "raised %s: %s" % (type(e).__name__, str(e)[:80]), None
         exp = [{"path": lst(d["common_path"]), "action": d["action"], "conflict": d["conflict"],
@@ -248,10 +249,14 @@ def run():
     merge_algo(chk, 1, True, kind="objects")
     if chk.quick:
         ndocs = merge_algo(chk, 1, True, kind="nested", nins=2, npatch="all")
+        sdocs = merge_algo(chk, 1, True, kind="strings", nins=2, npatch="all")
     else:
         merge_algo(chk, 3, False)
         ndocs = merge_algo(chk, 1, True, kind="nested", nins=3, npatch="all")
         merge_algo(chk, 2, False, kind="nested", nins=3, npatch="few")
+        sdocs = merge_algo(chk, 1, True, kind="strings", nins=3, npatch="all")
+        merge_algo(chk, 2, False, kind="strings", nins=2, npatch="all")
+    ndocs = ndocs + [({"s": b}, {"s": l}, {"s": r}) for b, l, r in sdocs]
     r.shuffle(ndocs)
     if chk.quick:
         pairs = corp.pairs(n_enum=220, n_random=60, salt="c05")
